@@ -25,7 +25,7 @@ class World:
                 1: x + 2 * y,
                 2: 3 * x - y + 5,
                 3: (x - 3) ** 2 + (y - 1) ** 2,
-                4: optyx.exp(x - 2) + (y - p) ** 2 - x,
+                4: optyx.exp(x - 2) + (1 + p) * (y - p) ** 2 - x,      # (1 + p): a sub-expression of parameters and constants only
                 5: x + 2 * y + z,
                 6: (x - 3) ** 2 + (y - 1) ** 2 + (self.a - 1) ** 2,
                 8: optyx.exp(-p) * x + 2 * y,
@@ -43,7 +43,7 @@ class World:
                 1: np.array([1.0, 2.0]) @ v,
                 2: np.array([3.0, -1.0]) @ v + 5,
                 3: (v - np.array([3.0, 1.0])).dot(v - np.array([3.0, 1.0])),
-                4: optyx.exp(v[0] - 2) + (v[1] - p) ** 2 - v[0],
+                4: optyx.exp(v[0] - 2) + (1 + p) * (v[1] - p) ** 2 - v[0],
                 5: v.sum() + v[1] + z,
                 6: (v - np.array([3.0, 1.0])).dot(v - np.array([3.0, 1.0])) + (self.a - 1) ** 2,
                 8: optyx.exp(-p) * v[0] + 2 * v[1],
